@@ -19,6 +19,8 @@ ENGINES = {
                     kind="recorded client-boundary histories of binds/unbinds/keyed picks checked for linearizability with porcupine"),
     "mesim": dict(module="grpcgcp", pkg="multiendpoint", pkgname="multiendpoint", pkgmarker="multiendpoint.", harness="multiendpoint",
                   files=["mesim_test.go"], kind="sequential virtual-clock simulation of MultiEndpoint vs reference state machine"),
+    "mestress": dict(module="grpcgcp", pkg="multiendpoint", pkgname="multiendpoint", pkgmarker="multiendpoint.", harness="multiendpoint",
+                     files=["mestress_test.go"], kind="concurrent MultiEndpoint workload with real millisecond timers: one reporter per endpoint aiming reports at timer expiry, readers, list re-ordering; convergence at quiescence"),
     "keys": dict(module="grpcgcp", pkg=".", pkgname="grpcgcp", pkgmarker="grpcgcp.", harness="grpcgcp",
                  files=["keys_test.go"], kind="generated Go values x locators vs independent reference traversal"),
     "prober": dict(module="spanner_prober", pkg="prober", pkgname="prober", pkgmarker="prober.", harness="prober",
@@ -85,12 +87,13 @@ for pid, rule in [
 
 ME_ESSENTIAL = {
     "C13": ["C13.membership", "C13.unavail-current", "C13.none-available-unchanged", "C13.removed-first", "C13.exact",
-            "C13.empty-rejected", "C13.current-removed", "C13.unknown-endpoint-report"],
+            "C13.empty-rejected", "C13.current-removed", "C13.unknown-endpoint-report", "C13.duplicate-list"],
     "C14": ["C14.recovering-stays", "C14.no-switch-in-call", "C14.no-downgrade", "C14.convergence", "C14.timer-fired",
             "C14.simultaneous-timers", "C14.late-callback", "C14.avail-in-window", "C14.repeat-unavail-in-window"],
 }
 ME_ASSUME = ["time is virtual through the package's own timeNow/timeAfterFunc variables; one goroutine; timer callbacks run as separate steps (simultaneous ones in seeded-shuffled order, optionally late)",
-             "endpoint lists without duplicates"]
+             "endpoint lists with a repeated entry are generated too, but after such a list was accepted only membership and totality are judged (the statements do not say which occurrence gives the priority)",
+             "mestress stage: real clock, recovery timeout 0.3-2 ms, switching delay 0-1.7 ms; convergence is polled for up to 5 s after the inputs stopped (bounded-progress restatement; the bound is three orders of magnitude above the timers)"]
 for pid, rule in [
     ("C13", "seeded random histories of availability reports / list replacements / clock advances over 8 (recovery,delay) configurations; non-trivial = the 'current unavailable while another is available' rule, the exact rule (delay 0) or a removal of the current endpoint was evaluated; distinct = hash of the op log"),
     ("C14", "seeded random histories as for C13 with late timer callbacks and shuffled simultaneous timers; non-trivial = a timer fired, a better endpoint became available under a switching delay, or a report arrived inside a recovery window; distinct = hash of the op log"),
@@ -100,6 +103,10 @@ for pid, rule in [
                                    essential=ME_ESSENTIAL, timeout=dict(quick=900, thorough=7200)),
                               dict(name="mesim-exhaustive", engine="mesim", test="TestVerifMEExhaustive", batches=dict(quick=8, thorough=16),
                                    essential={"C13": ["C13.exhaustive-sequences"], "C14": ["C14.exhaustive-sequences"]}, timeout=dict(quick=900, thorough=7200))])
+    PROPS[pid]["stages"].append(dict(name="mestress", engine="mestress", test="TestVerifMEStress", batches=dict(quick=8, thorough=16), crash_props=["C13", "C14"],
+                                     essential={"C13": ["C13.stress-membership"], "C14": ["C14.stress-convergence", "C14.stress-reports", "C14.stress-current-reads"]},
+                                     timeout=dict(quick=900, thorough=7200)))
+    PROPS[pid]["rule"] += "; mestress stage: concurrent executions with real timers (distinct = configuration and run index)"
     PROPS[pid]["rule"] += "; mesim-exhaustive stage: every op sequence of length 3 (quick) / 5 (thorough) over an alphabet of 6 availability reports, 6 list replacements and up to 5 clock advances on 3 endpoints, for 6 (recovery,delay) configurations (bounded-exhaustive; every rule evaluated after every step)"
 
 PROPS["C11"] = dict(level="exploration",
